@@ -644,11 +644,55 @@ def run_api(ctx, n_single, n_cross, tag="c06-api"):
                  sample=dict(cls=cfg["cls"], n=cfg["n"], scen=cfg["scen"], miss_rows_x=cfg["miss_rows_x"], miss_rows_y=cfg["miss_rows_y"]))
 
 
+def run_two_sample_dims(ctx, N):
+    """two sample dimensions with fully missing samples scattered unevenly over the (time, member) grid, and fully missing
+    features: the fit equals the fit on the matrix with those rows and columns deleted beforehand"""
+    import xarray as xr
+    import xeofs as xe
+    rng = ctx.rng.child("c06-2s").np
+    for i in range(N):
+        nt, nm, p = int(rng.integers(4, 8)), int(rng.integers(2, 4)), int(rng.integers(3, 6))
+        M = base_matrix(int(rng.integers(0, 2 ** 31)), nt * nm, p)
+        kmiss = int(rng.integers(1, max(2, nt * nm // 3)))
+        rows = sorted(int(x) for x in rng.choice(nt * nm, size=kmiss, replace=False))
+        cols = sorted(int(x) for x in rng.choice(p, size=int(rng.integers(0, 2)), replace=False))
+        A = masked(M, rows, cols)
+        keep_r = [r for r in range(nt * nm) if r not in rows]
+        keep_c = [c for c in range(p) if c not in cols]
+        cfg = dict(kind="two-sample-dims", nt=nt, nm=nm, p=p, miss_rows=rows, miss_cols=cols, standardize=bool(rng.random() < 0.4),
+                   center=bool(rng.random() < 0.8), cls=["EOF", "SparsePCA"][i % 2] if i % 4 == 3 else "EOF")
+        ctx.case(cfg, nontrivial=len(keep_r) >= 3, tag="api/two-sample-dims/%s" % cfg["cls"],
+                 sample=dict(shape=[nt, nm, p], missing_samples=rows, missing_features=cols, center=cfg["center"], standardize=cfg["standardize"]))
+        replay = dict(kind="api", cfg=cfg, M=M)
+        da = xr.DataArray(A.reshape(nt, nm, p), dims=("time", "member", "x"), coords={"time": np.arange(nt), "member": np.arange(nm) + 10, "x": np.arange(p) * 1.0})
+        red = xr.DataArray(M[np.ix_(keep_r, keep_c)], dims=("s", "x"), coords={"s": np.arange(len(keep_r)), "x": np.asarray(keep_c) * 1.0})
+        kw = dict(n_modes=2, center=cfg["center"], standardize=cfg["standardize"], solver="full")
+        try:
+            m = xe.single.EOF(**kw).fit(da, ("time", "member"))
+            ref = xe.single.EOF(**kw).fit(red, "s")
+            sv, svr = m.singular_values().values, ref.singular_values().values
+            comps = m.components().sel(x=red.x.values).transpose("x", "mode").values
+            compr = ref.components().transpose("x", "mode").values
+            sc = m.scores().stack(s=("time", "member")).transpose("s", "mode").values[keep_r]
+            scr = ref.scores().transpose("s", "mode").values
+        except Exception as e:
+            ctx.violation("C06:two-sample-dims:error:" + C.errkind(e), "EOF on (time, member, x) data with scattered fully missing samples raised %r (%r)" % (e, cfg), replay)
+            continue
+        sg = np.where(np.sum(comps * compr, axis=0) < 0, -1.0, 1.0)
+        scale = max(1.0, float(np.abs(svr).max()))
+        if not np.allclose(sv, svr, rtol=1e-7, atol=1e-9 * scale):
+            ctx.violation("C06:two-sample-dims:singular-values", "EOF(center=%s, standardize=%s) on (time, member) samples with %d scattered fully missing samples: singular values %r "
+                          "differ from the fit on the reduced data %r" % (cfg["center"], cfg["standardize"], len(rows), sv, svr), replay)
+        elif not np.allclose(comps * sg, compr, atol=1e-6) or not np.allclose(sc * sg, scr, atol=1e-6 * scale):
+            ctx.violation("C06:two-sample-dims:modes", "EOF on (time, member) samples with scattered fully missing samples: components / scores differ from the fit on the reduced data", replay)
+
+
 def run(ctx):
     C.setup_impl_env()
     C.clean_case_files("C06")
     decision_correspondence(ctx)
     run_api(ctx, ctx.n(48, 600), ctx.n(28, 300))
+    run_two_sample_dims(ctx, ctx.n(16, 240))
 
 
 def search(ctx):
